@@ -5,6 +5,9 @@ HERE = os.path.dirname(os.path.dirname(os.path.abspath(__file__)))
 ALL = ["C%02d" % i for i in range(1, 21)]
 HYD_NOTE = "Trusted: TLC; Dec.tla exact decimal arithmetic (self-tested by setup); recorded floats are logged at their shortest round-trip decimal; tolerances derived from the solver criterion max|residual| < 1e-6 with factor 2; non-converged runs are counted, not asserted."
 CLAIMED = {
+ "C14": dict(cat="model_checking", tech="TLA+ abstract data type of the model (Registry.tla): TLC checks its invariants and generates edit histories that are replayed on a real WaterNetworkModel with the views compared after every operation",
+   text="Registry.tla holds the primary data and defines every view (name lists, typed indexes, end nodes, usage records) declaratively, with the refusal rules of remove_*. TLC checks EndNodesExist/RefsExist/TypedPartition on all reachable states of a small universe, enumerates every history of length 2 (3 in the thorough tier) and samples long histories with -simulate; each is performed on the real model and after every operation the real views (all typed iterators fully iterated, counts, get_links_for_node, to_graph, get_usage/orphaned, describe) must equal the specified view and the refusal outcome must match.",
+   note="Trusted: TLC; operations are applied with valid arguments through the public API; universe of 3 node / 2 link / 2 pattern / 2 curve / 1 source / 1 control names.", ref="DESIGN.md section 5 C14"),
  "C06": dict(cat="model_checking", tech="TLC trace validation: tank integration identity and level limits (Hydraulics.tla TankStep/TankLimits) on consecutive solved rows",
    text="With report_timestep='ALL' every pair of consecutive solved steps of runs on random tank networks (cylindrical and volume-curve tanks with small capacity, several links incl. pumps and CV pipes) is checked by TLC: volume(level2) - volume(level1) = reported net inflow x elapsed time, level(0) = init_level, limits respected up to two seconds of flow, no discharge at min / no filling at max.",
    note=HYD_NOTE + " A volume curve is not asserted outside its first/last level. Known finding (open): volume-curve tanks overshoot limits when a trial step leaves the curve.", ref="DESIGN.md section 5 C06"),
